@@ -116,8 +116,10 @@ def big_endian_digits_to_int(digits: Iterable[int], *, base: int | Iterable[int]
     for d, b in zip(digits, base):
         if not (0 <= d < b):
             raise ValueError(f'Out of range digit. Digit: {d!r}, base: {b!r}')
-        result *= b
-        result += d
+        # Plain Python integers: numpy digits or bases would make the result a fixed-width integer
+        # that silently wraps around beyond 64 bits.
+        result *= int(b)
+        result += int(d)
     return result
 
 
